@@ -258,7 +258,7 @@ impl Driver {
                     c.keys.clone(),
                     v.clone(),
                     log.clone(),
-                    if c.mid_snapshot { Some(self.visible.clone()) } else { None },
+                    if c.mid_snapshot { Some((self.seqno.clone(), self.visible.clone())) } else { None },
                 ),
             )));
         }
@@ -269,6 +269,9 @@ impl Driver {
     pub fn open(&mut self) -> Result<(), String> {
         let cfg = self.build_config();
         let t = cfg.open().map_err(|e| format!("open: {e:?}"))?;
+        if let Some(l) = &self.filter_log {
+            *l.tree.lock().unwrap() = Some(t.clone());
+        }
         self.tree = Some(t);
         Ok(())
     }
@@ -379,7 +382,20 @@ impl Driver {
             info.err = Some(e);
         }
         if self.filter_log.is_some() {
-            self.absorb_filter_log(log_before, before.seqno, &mut info);
+            // the effects become visible with the version the compaction installed
+            let c = lsm_tree::verif_hooks::history(self.inner())
+                .last()
+                .map_or(before.seqno, |sv| sv.seqno.max(before.seqno));
+            self.absorb_filter_log(log_before, c, &mut info);
+            // writes the in-filter client made while the compaction was running
+            let mws: Vec<(Vec<u8>, Vec<u8>, u64)> = self
+                .filter_log
+                .as_ref()
+                .map(|l| std::mem::take(&mut *l.mid_writes.lock().unwrap()))
+                .unwrap_or_default();
+            for (k, v, s) in mws {
+                self.model.push(&k, s, Kind::Put, &v, Loc::Active);
+            }
             // snapshots the in-filter client opened while the compaction was running
             let mids: Vec<SeqNo> = self
                 .filter_log
@@ -654,6 +670,9 @@ impl Driver {
                     }
                 }
                 Op::Reopen => {
+                    if let Some(l) = &self.filter_log {
+                        *l.tree.lock().unwrap() = None;
+                    }
                     self.tree = None;
                     self.model.reopen();
                     self.snaps.clear();
